@@ -176,6 +176,34 @@ def main(argv):
     n_err = sum(len(r.errors) for r in results)
     n_inc = sum(len(r.inconclusive) for r in results) + len(extra.get('inconclusive', []))
     n_limit = sum(r.limited for r in results)
+    tolerant = spec.get('tolerant_jobs', False)
+    not_encoded = {}
+    if tolerant:
+        # jobs that could not be executed on proxies (shim gap, C code, path budget) are listed by name and are not part of the claim
+        kept = []
+        for r in results:
+            reason = None
+            if r.errors:
+                reason = 'error: ' + r.errors[0].strip().split('\n')[0][:160]
+            elif r.capped or not r.complete:
+                reason = 'path budget exceeded (%d paths explored)' % r.paths
+            elif r.limited:
+                reason = 'decision limit'
+            elif r.inconclusive:
+                reason = 'solver unknown on %d obligations' % len(r.inconclusive)
+            if reason and not r.violations:
+                not_encoded[r.name] = reason
+            else:
+                kept.append(r)
+        dropped = [r for r in results if r.name in not_encoded]
+        results_all = results
+        results = kept
+        n_err = sum(len(r.errors) for r in results)
+        n_inc = sum(len(r.inconclusive) for r in results) + len(extra.get('inconclusive', []))
+        n_limit = sum(r.limited for r in results)
+        if len(kept) < spec.get('min_encoded', 1):
+            harness_errors.append('only %d jobs could be encoded (minimum %d)' % (len(kept), spec.get('min_encoded', 1)))
+        timed_out = timed_out and any((not r.complete) and not r.capped for r in kept)
     incomplete = [r.name for r in results if not r.complete]
     for r in results:
         for e in r.errors[:2]:
@@ -245,6 +273,8 @@ def main(argv):
         'known_findings_seen': [k for k in known_hit],
         'violations_reported': [{'signature': s, 'replay': p, 'count': n} for s, p, n in reported],
         'harness_errors': harness_errors[:10],
+        'encoded': sorted(r.name for r in results) if tolerant else None,
+        'not_encoded': not_encoded if tolerant else None,
         'exhaustive': False,
         'partial_run': bool(args.only),
     }
@@ -265,7 +295,9 @@ def main(argv):
 
     print('%s tier=%s paths=%d obligations=%d discharged=%d inconclusive=%d errors=%d wall=%.1fs solver=%.1fs'
           % (pid, tier, n_paths, obligations, discharged, n_inc, n_err, wall, coverage['solver_s']))
-    for r in results:
+    if tolerant:
+        print('  encoded jobs: %d   not encoded: %d' % (len(results), len(not_encoded)))
+    for r in (results if len(results) <= 60 else [x for x in results if x.violations or x.errors or not x.complete]):
         s = r.summary()
         print('  job %-40s paths=%-6d obl=%-7d viol=%-4d abort=%-4d err=%-3d %s %.1fs' % (
             s['job'][:40], s['paths'], s['obligations'], s['violations'], s['aborted_paths'], s['errors'],
@@ -276,10 +308,10 @@ def main(argv):
         print('KNOWN-FINDING: property=%s %s [%s; %d violating paths]' % (pid, k['what'], kid, n))
     for sig, path, n in reported:
         print('VIOLATION property=%s replay=%s signature=%s paths=%d' % (pid, path, sig, n))
+    for e in harness_errors[:10]:
+        print('HARNESS-ERROR: ' + e)
     if reported:
         return EXIT_VIOLATION
     if harness_errors:
-        for e in harness_errors[:10]:
-            print('HARNESS-ERROR: ' + e)
         return EXIT_INCONCLUSIVE
     return EXIT_OK
